@@ -159,7 +159,8 @@ def run_property(pid, tier, seed):
     total = len(relevant)
     discharged = sum(1 for _, ob in relevant if ob["discharged"] == ob["instances"])
     violations, known_hits = [], []
-    os.makedirs(os.path.join(HERE, "replays", pid), exist_ok=True)
+    replay_base = os.environ.get("PYVC_REPLAY_DIR") or "replays"   # (dev runs on scratch copies write elsewhere)
+    os.makedirs(os.path.join(HERE, replay_base, pid), exist_ok=True)
     for r, ob in relevant:
         if ob["discharged"] == ob["instances"]:
             continue
@@ -205,7 +206,7 @@ def run_property(pid, tier, seed):
     searched = {}
     for r, ob in violations:
         f0 = next(f for f in ob["failed"] if not f.get("known"))
-        path = os.path.join("replays", pid, sanitize(ob["name"]) + ".json")
+        path = os.path.join(replay_base, pid, sanitize(ob["name"]) + ".json")
         if r["function"] not in searched:
             searched[r["function"]] = find_failing_input(r["function"], ob["name"], f0.get("model"))
         f0["replay"] = searched[r["function"]]
@@ -285,8 +286,9 @@ def write_evidence(pid, tier, seed, spec, reports, lemma_reports, relevant, tota
         "assumptions": spec.get("assumptions", []) + COMMON_ASSUMPTIONS,
         "wall_s": round(wall, 2), "violations": len(violations),
     }
-    os.makedirs(os.path.join(HERE, "evidence"), exist_ok=True)
-    with open(os.path.join(HERE, "evidence", f"{pid}.json"), "w") as fh:
+    evdir = os.environ.get("PYVC_EVIDENCE_DIR") or os.path.join(HERE, "evidence")
+    os.makedirs(evdir, exist_ok=True)
+    with open(os.path.join(evdir, f"{pid}.json"), "w") as fh:
         json.dump(ev, fh, indent=1, default=str)
 
 
